@@ -20,7 +20,7 @@ ASSUMPTIONS = ['NumPy/SciPy factorizations of the zeroth coefficient are the spe
                'guards: |R_ii| >= 0.2, lambda_min >= 0.3, eigenvalue gaps >= 0.3 or exactly repeated by construction, '
                'singular values distinct (gap >= 0.25) and >= 0.4']
 REQUIRED = ['qr:square', 'qr:tall', 'qr:wide', 'qr_full:square', 'qr_full:tall', 'cholesky', 'lu:nopivot', 'lu:pivot',
-            'eigh:distinct', 'eigh:repeated', 'eig', 'svd:square', 'svd:tall', 'svd:wide']
+            'eigh:distinct', 'eigh:repeated', 'eigh:scaled', 'svd:epsilon-keyword', 'eig', 'svd:square', 'svd:tall', 'svd:wide']
 
 
 def cases(tier, seed):
@@ -48,6 +48,8 @@ def cases(tier, seed):
                 if D <= 2:
                     for vk in ('real', 'complex', 'hermitian'):
                         add('eig', D=D, n=n, vals=vk, rep=rep)
+            add('eigh_scaled', D=D, n=4, rep=rep)
+            add('svd_eps', D=D, rep=rep)
             for n in (2, 3, 4, 5):
                 for split in (1, 2, 3, 0):                        # order at which the repeated block splits; 0 = never
                     if split < D:
@@ -284,6 +286,75 @@ def _eigh(ctx, p, rng):
     if bad:
         ctx.violation(mech + ':' + bad[0], {'n': n, 'D': D, 'P': P, 'split': split, 'AQ-QL': e1, 'QtQ-I': e2, 'zeroth': z, 'zeroth_Q': zq, 'lam_series': el}); return
     ctx.ok('eigh:' + cls, ('eigh', n, D, P, split), noise=max(e1, e2))
+
+
+def _eigh_scaled(ctx, p, rng):
+    """well separated in absolute terms, close in relative terms: eigenvalues s*(1 + small gaps) with s up to 1e6;
+    the problem is well conditioned (eps*|A|/gap <= 1e-7), so the defining equations and NumPy's eigenvectors must be reproduced"""
+    D, P, n = p['D'], p['P'], p['n']
+    a = np.zeros((D, P, n, n)); lam0 = np.zeros((P, n))
+    for pp in range(P):
+        sc = 10.0 ** float(rng.integers(3, 7))
+        Qm, _ = np.linalg.qr(rng.normal(size=(n, n)))
+        lam = sc + np.sort(np.concatenate([[0.0, 10.0 ** -float(rng.integers(2, 4))], rng.uniform(0.5, 3.0, size=n - 2)]))
+        a[0, pp] = (Qm * lam) @ Qm.T; lam0[pp] = lam
+        a[1:, pp] = rng.normal(size=(D - 1, n, n))
+    a = 0.5 * (a + lin.T(a))
+    try:
+        l, Qm = algopy.eigh(UTPM(a.copy()))
+    except Exception as e:
+        ctx.violation('eigh:scaled:raises', {'error': repr(e)[:200]}); return
+    q = Qm.data
+    Lm = np.zeros((D, P, n, n))
+    for d in range(D):
+        for pp in range(P):
+            Lm[d, pp] = np.diag(l.data[d, pp])
+    AQ, M1 = lin.cdot(a, q); QL, M2 = lin.cdot(q, Lm)
+    # absolute residual relative to the size of the higher coefficients (O(1)), not to |A_0| ~ 1e6
+    res = lin.res_norm(AQ - QL, M1 + M2)         # relative: Q_d legitimately grows like (|A_1|/gap)^d
+    res0 = float(np.max(np.abs(AQ - QL)[0]) / np.max(np.abs(a[0])))
+    zq = max(float(np.max(np.abs(q[0, pp] - np.linalg.eigh(a[0, pp])[1]))) for pp in range(P))
+    # first-order eigenvalue coefficients from perturbation theory with NumPy's eigenvectors: lam_1 = diag(Q0^T A_1 Q0)
+    pt = 0.0
+    if D > 1:
+        for pp in range(P):
+            Q0 = np.linalg.eigh(a[0, pp])[1]
+            pt = max(pt, float(np.max(np.abs(np.diag(Q0.T @ a[1, pp] @ Q0) - l.data[1, pp]))))
+    bad = [nm for nm, v, t in (('AQ=QL:order0', res0, 1e-12), ('AQ=QL:relative', res, 1e-7), ('zeroth-eigenvectors', zq, 1e-10), ('first-order-eigenvalues', pt, 1e-6)) if not v <= t]
+    if bad:
+        ctx.violation('eigh:scaled:' + bad[0], {'n': n, 'D': D, 'P': P, 'res0': res0, 'res': res, 'zeroth_Q': zq, 'lam1': pt}); return
+    ctx.ok('eigh:scaled', ('eigh_scaled', D, P), noise=res)
+
+
+def _svd_eps(ctx, p, rng):
+    """svd of a tiny-scaled matrix with a user-supplied rank threshold below the default"""
+    D, P = p['D'], p['P']
+    M, N = [(3, 3), (4, 2), (2, 3)][int(rng.integers(3))]
+    K = min(M, N)
+    sc = 10.0 ** -float(rng.integers(8, 11))
+    a = 0.4 * rng.normal(size=(D, P, M, N))
+    for pp in range(P):
+        U, _ = np.linalg.qr(rng.normal(size=(M, M))); V, _ = np.linalg.qr(rng.normal(size=(N, N)))
+        S = np.zeros((M, N)); S[:K, :K] = np.diag(np.sort(0.5 + np.cumsum(rng.uniform(0.4, 1.0, size=K)))[::-1])
+        a[0, pp] = U @ S @ V.T
+    a = a * sc
+    try:
+        U, s_, V = UTPM.svd(UTPM(a.copy()), epsilon=sc * 1e-5)
+    except Exception as e:
+        ctx.violation('svd:epsilon-keyword:raises', {'error': repr(e)[:200]}); return
+    u, v = U.data, V.data
+    S = np.zeros((D, P, M, N))
+    for d in range(D):
+        for pp in range(P):
+            S[d, pp, :K, :K] = np.diag(s_.data[d, pp])
+    US, _ = lin.cdot(u, S); USV, M2 = lin.cdot(US.astype(float), lin.T(v))
+    e1 = lin.res_norm(USV - a, M2 + np.abs(a))
+    e2 = max(_res(lin.cdot(lin.T(u), u), lin.eye(D, P, M)), _res(lin.cdot(lin.T(v), v), lin.eye(D, P, N)))
+    z = max(float(np.max(np.abs(s_.data[0, pp] - np.linalg.svd(a[0, pp], compute_uv=False))) / sc) for pp in range(P))
+    bad = [nm for nm, vv, t in (('USVt=A', e1, 1e-6), ('orthogonal', e2, 1e-6), ('zeroth-singular-values', z, 1e-9)) if not vv <= t]
+    if bad:
+        ctx.violation('svd:epsilon-keyword:' + bad[0], {'M': M, 'N': N, 'D': D, 'P': P, 'USVt-A': e1, 'orth': e2, 'zeroth': z}); return
+    ctx.ok('svd:epsilon-keyword', ('svd_eps', M, N, D, P), noise=max(e1, e2))
 
 
 def _eig(ctx, p, rng):
